@@ -303,10 +303,38 @@ def wait_shapes(repo):
     return out
 
 
+def _unconditional(f):
+    """Statements of ``f`` that run on every call: top level of the body and of top-level try bodies / finally."""
+    out = []
+
+    def walk(stmts):
+        for st in stmts:
+            if isinstance(st, ast.Try):
+                walk(st.body)
+                walk(st.finalbody)
+            elif isinstance(st, ast.Assign):
+                for t in st.targets:
+                    out.append("%s=%s" % (_src(t), _src(st.value)))
+            elif isinstance(st, ast.Expr) and isinstance(st.value, ast.Call):
+                out.append(_src(st.value.func))
+    if f is not None:
+        walk(f.body)
+    return out
+
+
+def closing_stmts(repo):
+    """What Channel._set_closed and BufferedPipe.close do unconditionally (the wake-ups a channel waiter relies on)."""
+    ctree = ast.parse(open(os.path.join(repo, "paramiko", "channel.py")).read())
+    ptree = ast.parse(open(os.path.join(repo, "paramiko", "buffered_pipe.py")).read())
+    return (_unconditional(_find_func(ctree, "Channel", "_set_closed")),
+            _unconditional(_find_func(ptree, "BufferedPipe", "close")))
+
+
 def lean_table(repo):
     ss = sites(repo)
     td = teardown(repo)
     ws = wait_shapes(repo)
+    sc, pc = closing_stmts(repo)
     lines = ["/- GENERATED by pv/lib_lockdisc.py from paramiko/*.py — do not edit. -/",
              "namespace PV.Generated.C13", "",
              "structure LockSite where", "  file : String", "  func : String", "  lock : String", "  safe : Bool",
@@ -323,6 +351,10 @@ def lean_table(repo):
               "def closeSeq : List String := [" + ", ".join('"%s"' % e for e in td["close_seq"]) + "]", "",
               "/-- `Channel._event_pending` clears the request event only while the channel is open, under the channel lock -/",
               "def eventClearGuarded : Bool := %s" % ("true" if td["event_clear_guarded"] else "false"), "",
+              "/-- statements `Channel._set_closed` executes unconditionally -/",
+              "def setClosedStmts : List String := [" + ", ".join('"%s"' % x.replace('"', "'") for x in sc) + "]", "",
+              "/-- statements `BufferedPipe.close` executes unconditionally -/",
+              "def pipeCloseStmts : List String := [" + ", ".join('"%s"' % x.replace('"', "'") for x in pc) + "]", "",
               "structure WaitShape where", "  row : String", "  kind : String", "  obj : String", "  precheck : Bool",
               "  loopChecksActive : Bool", "  loopChecksFlag : Bool", "  deriving Repr, DecidableEq", "",
               "/-- every `X.wait(..)` / `time.sleep(..)` in the functions behind the blocking APIs, classified -/",
